@@ -167,9 +167,9 @@ let typed (fields : string list) : bool =
     pass_line id dclass (k ^ "\t" ^ p ^ "\t" ^ z) (decode_unregistered (bytes_of_hex payload)); true
   | ["P1H"; id; par; payload; dclass; k; p; z] ->
     let par = (match split_on ',' par with
-        | [a; b; c; d; e; f; g] ->
+        | [a; b; c; d; e; f; g; h] ->
           { hp_ffi = bool_of a; hp_cpb = bool_of b; hp_subpic = bool_of c; hp_subpic_in_pt = bool_of d;
-            hp_au_len1 = n_of_hex e; hp_dpb_len1 = n_of_hex f; hp_du_len1 = n_of_hex g }
+            hp_au_len1 = n_of_hex e; hp_dpb_len1 = n_of_hex f; hp_du_len1 = n_of_hex g; hp_inc_len1 = n_of_hex h }
         | _ -> failwith "bad hevc par") in
     pass_line id dclass (k ^ "\t" ^ p ^ "\t" ^ z) (decode_pic_timing_hevc par (bytes_of_hex payload)); true
   | _ -> false
